@@ -84,6 +84,26 @@ func (sp *ServiceProvider) ValidatePostSignature(authRequest string) error {
 	return signature.ValidatePost(certs, doc.Root())
 }
 
+// ValidateAttributeQuerySignature validates the enveloped signature of the AttributeQuery carried in a SOAP request
+func (sp *ServiceProvider) ValidateAttributeQuerySignature(soapRequest string) error {
+	doc := etree.NewDocument()
+	if err := doc.ReadFromBytes([]byte(soapRequest)); err != nil {
+		return err
+	}
+
+	attrQuery := doc.FindElement("//AttributeQuery")
+	if attrQuery == nil {
+		return fmt.Errorf("error while parsing request")
+	}
+
+	certs, err := getSigningCertsFromMetadata(sp.Metadata)
+	if err != nil {
+		return err
+	}
+
+	return signature.ValidatePost(certs, attrQuery)
+}
+
 func (sp *ServiceProvider) ValidateRedirectSignature(request, relayState, sigAlg, expectedSig string) error {
 	if sp.signerPublicKey == nil {
 		return fmt.Errorf("error can not validate signature if no certificate is present for this service provider")
